@@ -24,6 +24,8 @@ extern char g_buf[VF_BUFCAP]; extern int g_buflen;
 static inline void BUF_APPEND(char c) { if (g_buflen < VF_BUFCAP - 1) { g_buf[g_buflen] = c; g_buf[g_buflen + 1] = 0; } g_buflen++; }
 static inline void BUF_APPEND_STR(const char* s) { for (int i = 0; i < 8 && s[i]; i++) BUF_APPEND(s[i]); }
 static inline void BUF_CLEAR(void) { g_buflen = 0; g_buf[0] = 0; }
+/* String::fix(0): sets the length only; the characters (and so the position of the NUL) stay as they are */
+static inline void BUF_FIX0(void) { g_buflen = 0; }
 static inline bool BUF_EQ(const char* s) { if (g_buflen >= VF_BUFCAP) return false; int i = 0; for (; i < 8 && s[i]; i++) if (g_buf[i] != s[i]) return false; return g_buf[i] == 0 && g_buflen == i; }
 #define BUF_AT(i) (__CPROVER_assert((i) >= 0 && (i) <= g_buflen, "String::operator[] index within length"), ((i) < VF_BUFCAP ? g_buf[(i) < VF_BUFCAP ? (i) : 0] : (char)'?'))
 /* value tree: counters */
